@@ -152,16 +152,26 @@ func classify(m *uasc.MessageBody) out {
 	return o
 }
 
-// recvOne calls Receive once, converting a panic of the calling goroutine into an observation.
-func recvOne(sc *uasc.SecureChannel, conn *uacp.Conn, timeout time.Duration) (o out) {
-	defer func() {
-		if r := recover(); r != nil {
-			o = out{K: "panic", Err: fmt.Sprint(r)}
-		}
-	}()
+// recvOne calls Receive once, converting a panic into an observation. Receive runs in its own goroutine: if it has not
+// returned one second after the read deadline of the connection it is reported as "stuck" (it waits on something that
+// is not the network, e.g. a mutex nobody releases); the goroutine is abandoned.
+func recvOne(sc *uasc.SecureChannel, conn *uacp.Conn, timeout time.Duration) out {
+	res := make(chan out, 1)
 	conn.SetReadDeadline(time.Now().Add(timeout))
-	m := sc.Receive(context.Background())
-	return classify(m)
+	go func() {
+		defer func() {
+			if r := recover(); r != nil {
+				res <- out{K: "panic", Err: fmt.Sprint(r)}
+			}
+		}()
+		res <- classify(sc.Receive(context.Background()))
+	}()
+	select {
+	case o := <-res:
+		return o
+	case <-time.After(timeout + time.Second):
+		return out{K: "stuck", Err: "Receive did not return"}
+	}
 }
 
 func noneAlgo() *uapolicy.EncryptionAlgorithm {
